@@ -77,3 +77,121 @@ Proof. intro H. unfold wwork, tasklen. rewrite H. destruct (live k); reflexivity
 
 Lemma wwork_live k : live k = true -> wwork k = tasklen k.
 Proof. unfold wwork. intros ->. reflexivity. Qed.
+
+(** * keep-alive: how many 1 ms naps until a worker's keep-alive has expired *)
+Definition rem (keep clock : Z) (k : worker) : Z :=
+  let dd := k_create k + keep - clock in if dd <=? 0 then 0 else dd / 1000000 + 1.
+Definition lrem (keep clock : Z) (k : worker) : Z := if live k then rem keep clock k else 0.
+Definition phimax (keep clock : Z) (ws : list worker) : Z := fold_right (fun k a => Z.max (lrem keep clock k) a) 0 ws.
+Definition phix (keep : Z) (x : pw) : Z := phimax keep (pw_clock x) (pw_workers x).
+(** [Z.of_nat (keep_rounds x)] *)
+Definition kcap (keep : Z) : Z := if keep <=? 0 then 0 else keep / 1000000 + 2.
+(** how many more idle yields before the next nap *)
+Definition pfc (m pf : Z) : Z := Z.max 0 (m - pf).
+Definition pfx (m : Z) (x : pw) : Z := pfc m (p_popfail (get_pool x 0)).
+
+Definition mu2 (keep : Z) (x : pw) (k : worker) : nat := (mu x k + Z.to_nat (rem keep (pw_clock x) k))%nat.
+
+Lemma rem_nonneg keep clock k : 0 <= rem keep clock k.
+Proof.
+  unfold rem. cbv zeta. destruct (_ <=? 0) eqn:E; [lia|].
+  pose proof (Z.div_pos (k_create k + keep - clock) 1000000 ltac:(lia) ltac:(lia)). lia.
+Qed.
+
+Lemma rem_bound keep clock k : k_create k <= clock -> rem keep clock k <= kcap keep.
+Proof.
+  intro H. unfold rem, kcap. cbv zeta. destruct (k_create k + keep - clock <=? 0) eqn:E.
+  - destruct (keep <=? 0) eqn:Ek; [lia|]. pose proof (Z.div_pos keep 1000000 ltac:(lia) ltac:(lia)). lia.
+  - assert (keep <=? 0 = false) as -> by lia.
+    pose proof (Z.div_le_mono (k_create k + keep - clock) keep 1000000 ltac:(lia) ltac:(lia)). lia.
+Qed.
+
+Lemma rem_mono keep c c' k : c <= c' -> rem keep c' k <= rem keep c k.
+Proof.
+  intro H. unfold rem. cbv zeta. destruct (k_create k + keep - c' <=? 0) eqn:E'; destruct (k_create k + keep - c <=? 0) eqn:E; try lia.
+  all: pose proof (Z.div_le_mono (k_create k + keep - c') (k_create k + keep - c) 1000000 ltac:(lia) ltac:(lia)); lia.
+Qed.
+
+(** a nap takes one round off, if there was one *)
+Lemma rem_nap keep c k : rem keep (c + 1000000) k <= Z.max 0 (rem keep c k - 1).
+Proof.
+  unfold rem. cbv zeta. destruct (k_create k + keep - (c + 1000000) <=? 0) eqn:E'; [lia|].
+  assert (k_create k + keep - c <=? 0 = false) as -> by lia.
+  replace (k_create k + keep - (c + 1000000)) with ((k_create k + keep - c) + (-1) * 1000000) by lia.
+  rewrite Z.div_add by lia. lia.
+Qed.
+
+Lemma rem_pos keep c k : 0 < k_create k + keep - c -> 1 <= rem keep c k.
+Proof.
+  intro H. unfold rem. cbv zeta. assert (k_create k + keep - c <=? 0 = false) as -> by lia.
+  pose proof (Z.div_pos (k_create k + keep - c) 1000000 ltac:(lia) ltac:(lia)). lia.
+Qed.
+
+Lemma kcap_nonneg keep : 0 <= kcap keep.
+Proof. unfold kcap. destruct (keep <=? 0) eqn:E; [lia|]. pose proof (Z.div_pos keep 1000000 ltac:(lia) ltac:(lia)). lia. Qed.
+
+Lemma lrem_nonneg keep c k : 0 <= lrem keep c k.
+Proof. unfold lrem. destruct (live k); [apply rem_nonneg | lia]. Qed.
+
+Lemma phimax_cons keep c k ws : phimax keep c (k :: ws) = Z.max (lrem keep c k) (phimax keep c ws).
+Proof. reflexivity. Qed.
+
+Lemma phimax_nonneg keep c ws : 0 <= phimax keep c ws.
+Proof. induction ws as [|k ws IH]; [cbn; lia|]. rewrite phimax_cons. lia. Qed.
+
+Lemma phimax_ge keep c ws w k : nth_error ws w = Some k -> lrem keep c k <= phimax keep c ws.
+Proof.
+  revert w. induction ws as [|a ws IH]; intros [|w]; cbn [nth_error]; try discriminate; rewrite phimax_cons.
+  - intro H. injection H as ->. lia.
+  - intro H. specialize (IH _ H). lia.
+Qed.
+
+Lemma phimax_le keep c ws b : 0 <= b -> (forall w k, nth_error ws w = Some k -> lrem keep c k <= b) -> phimax keep c ws <= b.
+Proof.
+  intros Hb. induction ws as [|a ws IH]; intro H; [cbn; lia|]. rewrite phimax_cons.
+  pose proof (H O a eq_refl). specialize (IH (fun w k Hk => H (S w) k Hk)). lia.
+Qed.
+
+Lemma phimax_bound keep c ws : (forall w k, nth_error ws w = Some k -> k_create k <= c) -> phimax keep c ws <= kcap keep.
+Proof.
+  intro H. apply phimax_le; [apply kcap_nonneg|]. intros w k Hk. unfold lrem. destruct (live k); [|apply kcap_nonneg].
+  apply rem_bound. eapply H, Hk.
+Qed.
+
+Lemma phimax_mono keep c c' ws : c <= c' -> phimax keep c' ws <= phimax keep c ws.
+Proof.
+  intro H. induction ws as [|a ws IH]; [cbn; lia|]. rewrite !phimax_cons.
+  assert (lrem keep c' a <= lrem keep c a) by (unfold lrem; destruct (live a); [apply rem_mono, H | lia]). lia.
+Qed.
+
+Lemma phimax_nap keep c ws : phimax keep (c + 1000000) ws <= Z.max 0 (phimax keep c ws - 1).
+Proof.
+  induction ws as [|a ws IH]; [cbn; lia|]. rewrite !phimax_cons.
+  assert (lrem keep (c + 1000000) a <= Z.max 0 (lrem keep c a - 1)).
+  { unfold lrem. destruct (live a); [apply rem_nap | lia]. }
+  lia.
+Qed.
+
+(** a worker record is replaced by one created at the same time, as alive as before *)
+Lemma phimax_set_nth keep c ws w k k' :
+  nth_error ws w = Some k -> live k' = live k -> k_create k' = k_create k -> phimax keep c (set_nth w k' ws) = phimax keep c ws.
+Proof.
+  intros Hk El Ec. revert w Hk. induction ws as [|a ws IH]; intros [|w]; cbn [nth_error]; try discriminate.
+  - intro H. injection H as ->. rewrite set_nth_cons_0, !phimax_cons. unfold lrem, rem. rewrite El, Ec. reflexivity.
+  - intro H. rewrite set_nth_cons_S, !phimax_cons. rewrite (IH _ H). reflexivity.
+Qed.
+
+Lemma pfc_nonneg m pf : 0 <= pfc m pf.
+Proof. unfold pfc. lia. Qed.
+
+(** no nap of a keep-alive period is cut short by the end of time ([u64::MAX]); vacuous without keep-alive *)
+Definition low (keep : Z) (x : pw) : Prop := keep <= 0 \/ pw_clock x < U64MAX.
+
+Lemma low_dec keep x : {low keep x} + {~ low keep x}.
+Proof.
+  unfold low. destruct (Z_le_gt_dec keep 0) as [H|H]; [left; left; exact H|].
+  destruct (Z_lt_le_dec (pw_clock x) U64MAX) as [H'|H']; [left; right; exact H' | right; lia].
+Qed.
+
+Lemma low_clock keep x x' : pw_clock x <= pw_clock x' -> low keep x' -> low keep x.
+Proof. unfold low. lia. Qed.
